@@ -332,7 +332,8 @@ def shell():
                 if which == "fnf":
                     raise FileNotFoundError("objdump")
                 if which == "cpe":
-                    raise real_sp.CalledProcessError(1, argv, stderr="bad format")
+                    # a disassembler that fails may already have written a banner / partial listing
+                    raise real_sp.CalledProcessError(1, argv, output="prog:     file format elf64-x86-64\n\n", stderr="bad format")
                 if which == "oserr":
                     raise PermissionError("denied")
                 return RunResult(0 if which == "ok" else 1)
